@@ -42,6 +42,9 @@ def payload(t, variant):
         other = [x for x in t[1] if not _is_ctor_of(x, variant) and not _is_other_ctor(x, variant)]
         if len(same) == 1 and not other and same[0][3]:
             return same[0][3][0][1]
+        if not same and len(other) == 1:
+            # `phi{v.pop() | None}` seen as Some: the literal None arm is not that value
+            return payload(other[0], variant)
     elif _is_ctor_of(t, variant) and t[3]:
         return t[3][0][1]
     if variant == "Ok":
